@@ -47,6 +47,10 @@ var c03Sigma = [][]string{
 	{"XY"},
 	{strings.Repeat("A", 10000)},
 	{"\x00\xff\x80"},
+	// MAIL commands the server refuses for policy reasons (the sender's domain is on the
+	// reject-origin list; the declared size is above the limit): no transaction is open afterwards
+	{"MAIL FROM:<a@badorigin.test>"},
+	{"MAIL FROM:<c@x.test> SIZE=99999999"},
 }
 
 type c03Case struct {
@@ -95,6 +99,7 @@ func c03ExecUnits(c *fw.Ctx, backend string, cas any, seq [][]string, checkFrom 
 	leaked := sys.InBubble(c.T, func() {
 		smtp := sys.DefaultSMTP()
 		smtp.RejectDomains = []string{"rej.test"}
+		smtp.RejectOriginDomains = []string{"badorigin.test"}
 		smtp.MaxMessageBytes = 5000000
 		smtp.MaxRecipients = 2 // a third RCPT is refused (552) and is no recipient of the transaction
 		s := sys.New(sys.Spec{Store: sys.StoreSpec{Backend: backend}, SMTP: smtp, NoHub: true})
